@@ -351,6 +351,13 @@ fn c18_round(ctx: &Ctx, out: &mut Out, rng: &mut Rng, k: u64) {
                 Proto::Ietf => crate::refimpl::req::ietf_request(&[crate::refimpl::crypto::DRAFT13], None, &nonce, 1024),
             };
             let _ = sock.send_to(&pkt, addr);
+            // a retransmission now and then: the very same datagram again, right behind the first
+            // (two requests, two replies)
+            if j % 10 == 3 {
+                let _ = sock.send_to(&pkt, addr);
+                pending.push((pkt.clone(), nonce.clone(), proto));
+                out.obs("burst_retransmitted_datagrams", 1);
+            }
             pending.push((pkt, nonce, proto));
         }
         if frozen {
@@ -623,6 +630,10 @@ enum Phase {
     /// persistence directory has been removed (or made read-only) behind the server's back: the
     /// reports fail, the signal must still stop the server cleanly
     StatsDirGone,
+    /// batch_size 1 or 2, one short burst that leaves more datagrams queued than one
+    /// process_events call may answer (valid requests and one-byte junk), then silence, then
+    /// the signal
+    BurstThenSilence,
 }
 
 /// one short datagram from each of `count` loopback source addresses base+i (IP_PKTINFO)
@@ -719,6 +730,9 @@ fn c19_run_phase(ctx: &Ctx, out: &mut Out, rng: &mut Rng, k: u64, force: Option<
     if phase == Phase::AcceptFault {
         cfg.health_check_port = Some(free_port(true));
     }
+    if phase == Phase::BurstThenSilence {
+        cfg.batch_size = Some(*rng.pick(&[1u32, 2]));
+    }
     // a quarter of the regular runs has a health port with a few clients that connect, say
     // nothing and stay connected (a half-open probe, a port scanner) when the signal arrives
     let silent_health = force.is_none() && rng.chance(1, 4);
@@ -748,6 +762,20 @@ fn c19_run_phase(ctx: &Ctx, out: &mut Out, rng: &mut Rng, k: u64, force: Option<
     let mut accept_conns: Vec<std::net::TcpStream> = Vec::new();
     match phase {
         Phase::Idle | Phase::LongIdle => {}
+        Phase::BurstThenSilence => {
+            let sock = UdpSocket::bind("127.0.0.1:0").unwrap();
+            let addr: SocketAddr = format!("127.0.0.1:{}", port).parse().unwrap();
+            let mut r = Rng::new(rng.next_u64());
+            for i in 0..200 {
+                if i % 7 == 0 {
+                    let (pkt, _) = make_request(&mut r, if i % 2 == 0 { Proto::Classic } else { Proto::Ietf }, None);
+                    let _ = sock.send_to(&pkt, addr);
+                } else {
+                    let _ = sock.send_to(&[0x55u8], addr);
+                }
+            }
+            out.obs("burst_then_silence_datagrams", 200);
+        }
         Phase::StatsDirGone => {
             if let Some(d) = &cfg.persistence_directory {
                 if k % 2 == 0 {
@@ -837,6 +865,26 @@ fn c19_run_phase(ctx: &Ctx, out: &mut Out, rng: &mut Rng, k: u64, force: Option<
             // what the flood is made of: a mix, or only one kind of datagram
             let flood_kind = k % 4;
             out.obs(&format!("flood_kind_{}", ["mixed", "classic-only", "ietf-only", "invalid-only"][flood_kind as usize]), 1);
+            // every other flood also carries valid requests whose UDP source port is 0 (raw
+            // socket): the replies to them cannot be sent, whatever the server does about that
+            // must not keep it from noticing the signal
+            if k % 2 == 0 {
+                if let Some(raw) = crate::inproc::RawUdp::new() {
+                    let (stop, srv) = (stop.clone(), srv.clone());
+                    let s0 = rng.next_u64();
+                    out.obs("floods_with_unanswerable_port0_requests", 1);
+                    flood_handles.push(std::thread::spawn(move || {
+                        let mut r = Rng::new(s0);
+                        let addr: SocketAddr = format!("127.0.0.1:{}", port).parse().unwrap();
+                        let pkts: Vec<Vec<u8>> = (0..16).map(|j| make_request(&mut r, if j % 2 == 0 { Proto::Classic } else { Proto::Ietf }, Some(&srv)).0).collect();
+                        while !stop.load(Ordering::Relaxed) {
+                            for p in &pkts {
+                                raw.send_from_port(0, addr, p);
+                            }
+                        }
+                    }));
+                }
+            }
             for i in 0..nsend {
                 let (stop, sent, srv) = (stop.clone(), sent.clone(), srv.clone());
                 let s = rng.next_u64();
@@ -1032,6 +1080,11 @@ pub fn run_c19(ctx: &Ctx, out: &mut Out) {
         }
     }
     if (2..5).contains(&ctx.shard) || ctx.thorough {
+        for j in 0..2 {
+            c19_run_phase(ctx, out, &mut rng, 5000 + 2 * ctx.shard + j, Some(Phase::BurstThenSilence));
+        }
+    }
+    if (2..5).contains(&ctx.shard) || ctx.thorough {
         for j in 0..(if ctx.thorough { 6 } else { 2 }) {
             c19_run_phase(ctx, out, &mut rng, 3000 + 3 * j + ctx.shard, Some(Phase::AcceptFault));
         }
@@ -1040,6 +1093,7 @@ pub fn run_c19(ctx: &Ctx, out: &mut Out) {
     out.floor("phase_AcceptFault", 2);
     out.floor("phase_Population", 1);
     out.floor("phase_StatsDirGone", 2);
+    out.floor("phase_BurstThenSilence", 2);
     out.floor("population_phase_reports_written", 1);
     out.floor("signal_runs", 20);
     out.floor("phase_Idle", 1);
